@@ -328,3 +328,31 @@ def _(v):
         v.prove("quantities.values", deep_equal(rq, {"A": -2.0, "B": 2.0 - 6.0, "C": 2.0, "D": 6.0}), detail=repr(rq))
     except ImportError:
         pass
+
+
+@harness("C03", "fractional_coefficients_in_the_array_forms", functions=[RS + ":ReactionSystem._stoichs", RS + ":ReactionSystem.net_stoichs", RS + ":ReactionSystem.all_reac_stoichs", RS + ":ReactionSystem.all_prod_stoichs",
+                                                                    RS + ":ReactionSystem.active_reac_stoichs", RS + ":ReactionSystem.active_prod_stoichs", "chempy.kinetics.ode:dCdt_list",
+                                                                    "chempy.kinetics.ode:law_of_mass_action_rates"], kind="data")
+def _(v):
+    """non-integer coefficients (yields such as 'A -> 1/2 B + 3/2 C', given as Fraction or float) reach the matrix/array forms unchanged: the five
+    stoichiometry matrices hold the coefficients as written, and dCdt_list(law_of_mass_action_rates) is (products - reactants) x k x prod c**nu,
+    equal to what the dict path ReactionSystem.rates reports"""
+    from fractions import Fraction as Fr
+    from chempy.chemistry import Reaction, Substance
+    from chempy.reactionsystem import ReactionSystem
+    from chempy.kinetics.ode import dCdt_list, law_of_mass_action_rates
+    for label, half, threehalves in (("fraction", Fr(1, 2), Fr(3, 2)), ("float", 0.5, 1.5)):
+        rsys = ReactionSystem([Reaction({"A": 1}, {"B": half, "C": threehalves}, 3, checks=()), Reaction({"B": 2, "C": threehalves}, {"A": 1}, 2, inact_prod={"C": half}, checks=())],
+                              [Substance(k) for k in "ABC"], checks=())
+        mats = {a: [list(row) for row in getattr(rsys, a)()] for a in ("net_stoichs", "all_reac_stoichs", "all_prod_stoichs", "active_reac_stoichs", "active_prod_stoichs")}
+        want = {"net_stoichs": [[-1, half, threehalves], [1, -2, half - threehalves]], "all_reac_stoichs": [[1, 0, 0], [0, 2, threehalves]],
+                "all_prod_stoichs": [[0, half, threehalves], [1, 0, half]], "active_reac_stoichs": [[1, 0, 0], [0, 2, threehalves]], "active_prod_stoichs": [[0, half, threehalves], [1, 0, 0]]}
+        v.prove(label + ".matrices_hold_the_coefficients_as_written", mats == want, detail=repr({k: m for k, m in mats.items() if m != want[k]}))
+        c = {"A": 7, "B": 4, "C": 9}
+        conc = [c[k] for k in "ABC"]
+        r1, r2 = 3 * 7, 2 * 4 ** 2 * 27            # 9**(3/2) = 27
+        expect = [-r1 + r2, half * r1 - 2 * r2, threehalves * r1 + (half - threehalves) * r2]
+        got = list(dCdt_list(rsys, list(law_of_mass_action_rates(conc, rsys))))
+        viadict = rsys.rates(c)
+        v.prove(label + ".array_path", all(abs(float(g) - float(e)) <= 1e-12 * abs(float(e)) for g, e in zip(got, expect)), detail="%r want %r" % (got, expect))
+        v.prove(label + ".dict_path_agrees", all(abs(float(viadict[k]) - float(e)) <= 1e-12 * abs(float(e)) for k, e in zip("ABC", expect)), detail=repr(viadict))
